@@ -116,6 +116,12 @@ func streamIsolation(o *Out, r *rand.Rand, n int, thorough bool) {
 		"bytes = import(\"bytes\")\nb = bytes.TrimSpace(\"  anko  \")\nb[0] = b[0] - 32\nprobe(toString(b))",
 		"bytes = import(\"bytes\")\nparts = bytes.Fields(\"ab cd\")\nparts[0][0] = 90\nparts[1][1] = 90\nprobe([toString(parts[0]), toString(parts[1])])\nprobe(\"ab cd\")",
 		"b = toByteSlice(\"hello\")\nb[0] = 72\nprobe([toString(b), \"hello\"])",
+		// a spread call with leading arguments, evaluated again and again (loop, later runs) with a different list each time
+		"func pair(a, b) { return [a, b] }\nr = []\nfor xs in [[1], [2], [3]] {\nr += [pair(\"k\", xs...)]\n}\nprobe(r)",
+		"func tri(a, b, c) { return [a, b, c] }\nr = []\nfor xs in [[1, 2], [3, 4]] {\nr += [tri(0, xs...)]\n}\nprobe(r)",
+		"r = []\nfor xs in [[1], [2], [3]] {\nr += typed2(\"a\", xs...)\n}\nprobe(r)",
+		"func five(a, b, c, d, e) { return [a, e] }\nr = []\nfor xs in [[[1]], [[2]]] {\nr += [five(0, 0, 0, 0, xs...)]\n}\nprobe(r)",
+		"func pair(a, b) { return [a, b] }\nfunc call(xs) { return pair(\"rows\", xs...) }\nprobe([call([[\"one\"]]), call([[\"two\", \"TWO\"]])])",
 		"c = make(chan int64, 2)\ns = make(struct { C chan int64 })\nprobe(s.C == nil)\nt = make([][]int64, 2)\nt[0] = [1]\nt[0][0]++\nprobe(t)",
 	}
 	for i := 0; i < n+len(extra); i++ {
